@@ -167,6 +167,10 @@ def _canon_indexer(e):
     X, kind, idx = e[1][1], e[1][2], e[2]
     if kind == "loc" and idx[0] == "tuple" and len(idx) == 3 and idx[2] == _FULL_SLICE and idx[1][0] not in ("slice", "tuple"):
         return canon(("sub", ("attr", X, "loc"), idx[1]))
+    if (kind == "iloc" and isinstance(idx, tuple) and len(idx) == 5 and idx[0] == "mcall" and idx[2] == "get_loc" and len(idx[3]) == 1 and not idx[4]
+            and isinstance(idx[1], tuple) and len(idx[1]) == 3 and idx[1][0] == "attr" and idx[1][2] == "index" and canon(idx[1][1]) == canon(X)):
+        # the row at the position of a label in the table's own (unique) index is the row of that label
+        return canon(("sub", ("attr", X, "loc"), idx[3][0]))
     if kind == "iloc" and _windowed_owner(X) is not None:
         try:
             c = to_rat(idx).const_value()
@@ -190,6 +194,9 @@ def _strip_snapshot(it, calls=("list", "tuple")):
             it = it[2][0]
         elif it[0] == "mcall" and it[2] == "copy" and not it[3] and not it[4]:
             it = it[1]
+        elif (it[0] == "mcall" and len(it) == 5 and it[2] == "unique" and not it[3] and not it[4] and isinstance(it[1], tuple) and len(it[1]) == 3 and it[1][0] == "attr"
+              and it[1][2] == "index" and _is_row(it[1][1])):
+            it = it[1]  # the labels of a row are already unique
         else:
             break
     return it
@@ -215,11 +222,34 @@ def _canon(e):
             return canon(args[0])  # truth value of x (values are compared as truth values where they are used as such)
         if f in SQRT_FUNCS and len(args) == 1:
             return ("call", "sqrt", (canon(args[0]),), ())
+        if f in ("min", "max") and len(args) == 2 and not kw:
+            # min(a, b) is a if a < b else b (on a tie both are the same number)
+            a, b = args
+            return canon(("ite", ("cmp", "<", a, b), a, b) if f == "min" else ("ite", ("cmp", "<", a, b), b, a))
+        if f == "len" and len(args) == 1 and not kw:
+            a = args[0]
+            while isinstance(a, tuple) and len(a) == 5 and a[0] == "mcall" and a[2] in ("sort_values", "sort_index", "copy", "astype", "fillna", "abs", "rank", "round"):
+                a = a[1]  # as many entries as before
+            if a is not args[0]:
+                return ("call", "len", (canon(a),), ())
         if f == "isinstance" and len(args) == 2 and not kw and isinstance(args[0], tuple) and args[0] and args[0][0] in ("num", "str") and args[1] in (("func", "int"), ("func", "str")):
             # a literal argument (a default position such as `_get_backtest(0)`) is what it is
             if args[0][0] == "str":
                 return ("bool", args[1] == ("func", "str"))
             return ("bool", args[1] == ("func", "int") and args[0][1].denominator == 1)
+        if f in ("pd.DataFrame", "pandas.DataFrame"):
+            # one spelling of a table filled with a constant: DataFrame(c, index=I, columns=[a, b]) / DataFrame(data=c, ...) / DataFrame({a: c, b: c}, index=I)
+            kwd = dict(kw)
+            rest = tuple(args)
+            if len(rest) == 1 and "data" not in kwd:
+                kwd["data"], rest = rest[0], ()
+            data, cols = kwd.get("data"), kwd.get("columns")
+            if (not rest and data is not None and cols is not None and isinstance(cols, tuple) and cols and cols[0] == "list" and all(isinstance(c_, tuple) and c_ and c_[0] == "str" for c_ in cols[1:])
+                    and isinstance(data, tuple) and data and (data[0] in ("num", "nan") or (data[0] == "call" and data[1] == "int"))):
+                kwd["data"] = ("dict",) + tuple(("tuple", c_, data) for c_ in cols[1:])
+                del kwd["columns"]
+            if not rest:
+                return ("call", "pd.DataFrame", (), tuple(sorted((k, canon(v)) for k, v in kwd.items())))
         if f == "set.union" and len(args) == 2 and not kw:
             return canon(("|", args[0], args[1]))  # the union of two sets
         if f in ("list", "tuple", "set", "sorted", "frozenset") and len(args) == 1 and not kw:
@@ -300,6 +330,21 @@ def _canon(e):
         r = _canon_indexer(e)
         if r is not None:
             return r
+    if t == "mcall" and len(e) == 5 and e[2] == "abs" and not e[3] and not e[4]:
+        return canon(("call", "abs", (e[1],), ()))  # x.abs() is abs(x)
+    if t == "mcall" and len(e) == 5 and e[2] in ("div", "truediv", "divide") and len(e[3]) == 1 and not e[4]:
+        return canon(("/", e[1], e[3][0]))  # a.div(b) without options is a / b (same label alignment)
+    if t == "sub" and len(e) == 3 and isinstance(e[2], tuple) and e[2] and e[2][0] == "str" and isinstance(e[1], tuple) and e[1]:
+        fr = canon(e[1])
+        if isinstance(fr, tuple) and len(fr) == 4 and fr[0] == "call" and fr[1] == "pd.DataFrame" and not fr[2]:
+            kwd = dict(fr[3])
+            d = kwd.get("data")
+            if set(kwd) == {"data"} and isinstance(d, tuple) and d and d[0] == "dict":
+                for item in d[1:]:
+                    if isinstance(item, tuple) and len(item) == 3 and item[0] == "tuple" and item[1] == e[2]:
+                        return item[2]  # the column a frame was built from (columns of one frame share its index)
+    if t == "mcall" and len(e) == 5 and e[2] == "unique" and not e[3] and not e[4] and isinstance(e[1], tuple) and len(e[1]) == 3 and e[1][0] == "attr" and e[1][2] == "index" and _is_row(e[1][1]):
+        return canon(e[1])  # the labels of a row are the table's column labels: already unique
     if t in ("mcall", "call") and _dict_iter(e) is not None:
         return ("dictiter", canon(_dict_iter(e)[1]))
     if t == "comp" and len(e) == 5 and e[1] == "dict" and not e[4]:
@@ -344,6 +389,13 @@ def _canon(e):
         if x[0] == "none":
             return ("bool", True)
         return ("isnone", canon(x))
+    if t == "in" and len(e) == 3 and e[2] in (("dict",), ("list",), ("tuple",), ("set",)):
+        return ("bool", False)  # nothing is in an empty container (re-simplified after a restriction resolved the container)
+    if t == "in" and len(e) == 3 and isinstance(e[1], tuple) and len(e[1]) == 3 and e[1][0] == "dkey" and e[1][1] == canon(e[2]):
+        return ("bool", True)  # a key met while iterating a dict is in that dict
+    if t == "sub" and len(e) == 3 and isinstance(e[1], tuple) and e[1] and e[1][0] == "ite" and len(e[1]) == 4:
+        # (a if c else b)[k]  is  a[k] if c else b[k]
+        return canon(("ite", e[1][1], ("sub", e[1][2], e[2]), ("sub", e[1][3], e[2])))
     if t == "attr" and len(e) == 3 and isinstance(e[1], tuple) and e[1] and e[1][0] == "ite" and len(e[1]) == 4:
         # (a if c else b).n  is  a.n if c else b.n
         return canon(("ite", e[1][1], ("attr", e[1][2], e[2]), ("attr", e[1][3], e[2])))
@@ -415,7 +467,14 @@ def _canon_cmp(op, a, b):
                 alts.append(_canon_cmp("is", a, y) if (y[0] == "none" or y[0] == "param" or y[0] == "fld") else _canon_cmp("==", a, y))
             res = canon(("or",) + tuple(alts)) if len(alts) > 1 else alts[0]
             return res if op == "in" else neg_atom(res)
-        res = ("in", canon(a), canon(b))
+        if isinstance(b, tuple) and b in (("dict",), ("list",), ("tuple",), ("set",)):
+            res = ("bool", False)  # nothing is in an empty container
+            return res if op == "in" else neg_atom(res)
+        ca_, cb_ = canon(a), canon(_strip_snapshot(b))  # x in list(xs)  is  x in xs
+        if isinstance(ca_, tuple) and len(ca_) == 3 and ca_[0] == "dkey" and ca_[1] == cb_:
+            res = ("bool", True)  # a key met while iterating a dict is in that dict
+            return res if op == "in" else neg_atom(res)
+        res = ("in", ca_, cb_)
         return res if op == "in" else neg_atom(res)
     # orderings: a < b  <=>  (a-b) < 0
     if op == ">":
@@ -591,6 +650,7 @@ def saturate(guard):
                     g.add((("bool", False), True))  # len(..) < 0
                 elif a[1] == "<=" and sign > 0:
                     g.add((("zero", _abs_norm(r)), True))  # len(..) <= 0  =>  len(..) == 0
+    _len_integer_facts(g)
     changed = True
     n = 0
     while changed and n < 20:
@@ -644,6 +704,86 @@ def saturate(guard):
                         g.add(l)
                         changed = True
     return g
+
+
+def _len_linear(r):
+    """(len-call atom, k, c) when r is k * len(...) + c with constant k != 0 and c, else None"""
+    try:
+        if list(r.den.keys()) != [()]:
+            return None
+        d = r.den[()]
+        terms = dict((m, v / d) for m, v in r.num.items())
+        c = terms.pop((), Fraction(0))
+        if len(terms) != 1:
+            return None
+        (m, k), = terms.items()
+        if len(m) != 1 or m[0][1] != 1 or k == 0:
+            return None
+        at = m[0][0]
+        if isinstance(at, tuple) and at and at[0] == "call" and at[1] == "len":
+            return at, k, c
+    except Exception:
+        return None
+    return None
+
+
+def _len_integer_facts(g):
+    """A length is a non-negative integer: from the bounds and exclusions stated about one, derive its value (or a contradiction)
+    when only one (or no) integer is left - e.g. len <= 1 and len != 0 give len == 1."""
+    import math
+
+    info = {}
+    for a, pol in list(g):
+        if not (isinstance(a, tuple) and a):
+            continue
+        try:
+            if a[0] == "cmp" and len(a) == 3 and a[1] in ("<", "<=", "=="):
+                op, r = a[1], to_rat(a[2])
+            elif a[0] == "zero" and len(a) == 2:
+                op, r = "==", to_rat(a[1])
+            else:
+                continue
+        except Exception:
+            continue
+        lin = _len_linear(r)
+        if lin is None:
+            continue
+        L, k, c = lin
+        rec = info.setdefault(L, {"lo": 0, "hi": None, "ne": set()})
+        b = -c / k  # the comparison is about L versus b
+        if op == "==":
+            if pol:
+                if b.denominator != 1 or b < 0:
+                    g.add((("bool", False), True))
+                    return
+                rec["lo"] = max(rec["lo"], int(b))
+                rec["hi"] = int(b) if rec["hi"] is None else min(rec["hi"], int(b))
+            elif b.denominator == 1:
+                rec["ne"].add(int(b))
+            continue
+        # k*L + c (<|<=) 0
+        upper = (k > 0) == pol  # an upper bound on L when k > 0 and the literal holds, or k < 0 and it fails
+        strict = (op == "<") == pol
+        if upper:
+            v = math.ceil(b) - 1 if strict else math.floor(b)
+            rec["hi"] = v if rec["hi"] is None else min(rec["hi"], v)
+        else:
+            v = math.floor(b) + 1 if strict else math.ceil(b)
+            rec["lo"] = max(rec["lo"], v)
+    for L, rec in info.items():
+        if rec["hi"] is None or rec["hi"] - rec["lo"] > 8:
+            continue
+        vals = [v for v in range(rec["lo"], rec["hi"] + 1) if v not in rec["ne"]]
+        if not vals:
+            g.add((("bool", False), True))
+            return
+        if len(vals) == 1:
+            v = vals[0]
+            g.add((canon(("cmp", "==", L, ("num", Fraction(v)))), True))
+            g.add((("zero", _abs_norm(to_rat(L))), v == 0))
+            for w in range(0, max(v, rec["hi"]) + 2):
+                if w != v:
+                    g.add((canon(("cmp", "==", L, ("num", Fraction(w)))), False))
 
 
 def _len_sign(r):
